@@ -558,7 +558,7 @@ func headerOfRowLoop(s, start *ssa.BasicBlock) bool {
 
 func init() {
 	register(&Rule{ID: "R87", Name: "RESIZE-PRESERVES", Floor: 2,
-		Text: "in internal/io, wherever an element of a per-column buffer table ([][]byte, [][]bytePointer) handed in as a parameter is replaced by a slice allocated in the function (the RowCountHint pre-sizing), the replacement is built by appending the old element's content to the new allocation: the cells read so far are carried over",
+		Text: "in internal/io, wherever an element of a per-column buffer table ([][]byte, [][]bytePointer) handed in as a parameter is replaced by a slice allocated in the function (the RowCountHint pre-sizing), the replacement is built by appending the old element's content to the new allocation (or allocated with the old length and filled by copy): the cells read so far are carried over",
 		Run:  runR87})
 }
 
@@ -610,6 +610,26 @@ func runR87(c *Ctx) {
 			walk(st.Val)
 			if !rooted {
 				return
+			}
+			// the other idiom: make([]T, len(old), cap) followed by copy(new, old)
+			if mk, ok := st.Val.(*ssa.MakeSlice); ok && !carries {
+				isOldElem := func(v ssa.Value) bool {
+					if ld, ok := v.(*ssa.UnOp); ok && ld.Op == token.MUL {
+						if ia2, ok := ld.X.(*ssa.IndexAddr); ok && rootValue(ia2.X) == rootValue(ia.X) {
+							return true
+						}
+					}
+					return false
+				}
+				lenOfOld := false
+				if lc, ok := mk.Len.(*ssa.Call); ok && builtinName(lc) == "len" && isOldElem(lc.Call.Args[0]) {
+					lenOfOld = true
+				}
+				for _, r := range *mk.Referrers() {
+					if cp, ok := r.(*ssa.Call); ok && builtinName(cp) == "copy" && cp.Call.Args[0] == ssa.Value(mk) && isOldElem(cp.Call.Args[1]) && lenOfOld {
+						carries = true
+					}
+				}
 			}
 			key := fnm + "|replacement buffer"
 			if carries {
@@ -712,7 +732,7 @@ func runR110(c *Ctx) {
 				// under err == io.EOF? then end of input, true is fine
 				eof := false
 				for _, g := range dominatingGuards(t.Block()) {
-					if bo, ok := g.Cond.(*ssa.BinOp); ok && bo.Op == token.EQL && g.Val {
+					if bo, ok := g.Cond.(*ssa.BinOp); ok && (bo.Op == token.EQL && g.Val || bo.Op == token.NEQ && !g.Val) {
 						if ld, ok := bo.Y.(*ssa.UnOp); ok {
 							if gl, ok := ld.X.(*ssa.Global); ok && gl.Name() == "EOF" {
 								eof = true
